@@ -243,7 +243,12 @@ def drive(name, T, k, start, hist, rng, on_step, reset_at=None, decay=None, roun
     prev = None
     for i, (ar, accepted) in enumerate(hist):
         if reset_at is not None and i == reset_at:
-            prop._reset_adaptation()         # Chain.reset_proposals(): the window restarts at the current step
+            try:
+                prop._reset_adaptation()         # Chain.reset_proposals(): the window restarts at the current step
+            except Exception as e:          # noqa
+                on_step(kind, prev, None, dict(i=i, ar=ar, accepted=accepted, x=list(pos), called=False, prop=prop,
+                                               error=RuntimeError('the adaptation reset before this update raised %r' % (e,))))
+                break
         if roundtrip_at is not None and i == roundtrip_at:
             # checkpoint / resume: the state goes through pickle into a freshly constructed proposal
             import pickle
